@@ -20,27 +20,142 @@ theorem drop_join_len (op : Opts) (c : Char) (r : List Char) (c1 c2 : Char) :
 
 theorem tail_len (l : List Char) : l.tail.length ≤ l.length := by cases l <;> simp
 
+theorem takeWord_fst_nonempty (op : Opts) (c : Char) (r : List Char)
+    (h : (takeWord op (c :: r)).1.isEmpty = false) : (takeWord op (c :: r)).2.length ≤ r.length := by
+  apply takeWord_nonempty
+  intro e
+  rw [e] at h
+  simp at h
+
+set_option hygiene false in
+/-- closes a leaf of the case analysis of `stdStep`: `h` is what is left of the definition -/
+macro "close_leaf" : tactic => `(tactic|
+  (repeat' split at h
+   all_goals
+     first
+     | (cases h; done)
+     | (simp only [Except.ok.injEq, Prod.mk.injEq] at h
+        obtain ⟨_, _, _, rfl⟩ := h
+        first
+        | exact Nat.le_refl _
+        | exact drop_join_len _ _ _ _ _
+        | (simp; done)
+        | (have hq := parseNumber_len _ _ _ _ (by assumption); omega)
+        | (have hq := parseNumber_len _ _ _ _ (by assumption); simp at hq ⊢; omega)
+        | (have hq := parseString_len _ _ _ _ (by assumption); simp at hq; omega)
+        | (have hq := parseChar_len _ _ _ (by assumption); simp at hq; omega)
+        | (simp; omega))))
+
 /-- every successful iteration leaves strictly less than `c :: r` -/
 theorem stdStep_progress (op : Opts) (n : Nat) (s : St) (o : Nat) (prev c : Char) (r : List Char)
     (s' : St) (o' : Nat) (cons rest : List Char)
     (h : stdStep op n s o prev c r = .ok (s', o', cons, rest)) : rest.length ≤ r.length := by
-  unfold stdStep at h
-  simp only at h
-  repeat' split at h
-  all_goals
-    first
-    | (cases h; done)
-    | (simp only [Except.ok.injEq, Prod.mk.injEq] at h
-       obtain ⟨_, _, _, rfl⟩ := h
-       first
-       | exact Nat.le_refl _
-       | exact drop_join_len _ _ _ _ _
-       | (simp; done)
-       | (have h1 := parseNumber_len _ _ _ _ (by assumption); omega)
-       | (have h1 := parseString_len _ _ _ _ (by assumption); simp at h1; omega)
-       | (have h1 := parseChar_len _ _ _ (by assumption); simp at h1; omega)
-       | (have h1 := takeWord_nonempty _ _ _ (by simp_all); simp_all)
-       | (simp; omega))
-    | skip
+  by_cases h1 : c = '#'
+  · simp (config := { maxSteps := 4000000 }) only [stdStep, h1, ↓reduceIte] at h
+    close_leaf
+  simp (config := { maxSteps := 4000000 }) only [stdStep, h1, ↓reduceIte] at h
+  by_cases h2 : c = '\\'
+  · rw [if_pos h2] at h
+    close_leaf
+  rw [if_neg h2] at h
+  by_cases h3 : isDigit c = true
+  · rw [if_pos h3] at h
+    close_leaf
+  rw [if_neg h3] at h
+  by_cases h4 : (decide (c = 'R') && decide (r.head? = some '"')) = true
+  · rw [if_pos h4] at h
+    -- raw string
+    cases hd : rawDelimiter r.tail with
+    | none => simp [hd] at h
+    | some p =>
+      obtain ⟨d, r2⟩ := p
+      have hl1 := rawDelimiter_len _ d r2 hd
+      have hl2 := tail_len r
+      simp only [hd] at h
+      cases hb : (rawBody d r2).2 with
+      | none =>
+        simp only [hb, Except.ok.injEq, Prod.mk.injEq] at h
+        obtain ⟨_, _, _, rfl⟩ := h
+        simp
+      | some r3 =>
+        have hl3 := rawBody_len d r2 r3 hb
+        simp only [hb, Except.ok.injEq, Prod.mk.injEq] at h
+        obtain ⟨_, _, _, rfl⟩ := h
+        omega
+  rw [if_neg h4] at h
+  by_cases h5 : c = '"'
+  · rw [if_pos h5] at h
+    close_leaf
+  rw [if_neg h5] at h
+  by_cases h6 : c = '\''
+  · rw [if_pos h6] at h
+    close_leaf
+  rw [if_neg h6] at h
+  by_cases h7 : c = '<'
+  · rw [if_pos h7] at h
+    close_leaf
+  rw [if_neg h7] at h
+  by_cases h8 : c = '>'
+  · rw [if_pos h8] at h
+    close_leaf
+  rw [if_neg h8] at h
+  by_cases h9 : c = ':'
+  · rw [if_pos h9] at h
+    close_leaf
+  rw [if_neg h9] at h
+  by_cases h10 : (decide (c = '+') || decide (c = '-')) = true
+  · rw [if_pos h10] at h
+    close_leaf
+  rw [if_neg h10] at h
+  by_cases h11 : c = '/'
+  · rw [if_pos h11] at h
+    -- comments
+    cases r with
+    | nil => close_leaf
+    | cons d r' =>
+      simp only at h
+      by_cases ha : (decide (d = '/') && op.treatCxxComments) = true
+      · rw [if_pos ha] at h
+        simp only [Except.ok.injEq, Prod.mk.injEq] at h
+        obtain ⟨_, _, _, rfl⟩ := h
+        simp
+      · rw [if_neg ha] at h
+        by_cases hb : (decide (d = '*') && op.treatCComments) = true
+        · rw [if_pos hb] at h
+          have hlen := parseCComment_len op n s o (c :: d :: r')
+          generalize parseCComment op n s o (c :: d :: r') = pc at h hlen
+          obtain ⟨s1, o1, b1⟩ := pc
+          simp only [Except.ok.injEq, Prod.mk.injEq] at h
+          obtain ⟨_, _, _, rfl⟩ := h
+          simp at hlen ⊢
+          omega
+        · rw [if_neg hb] at h
+          close_leaf
+  rw [if_neg h11] at h
+  by_cases h12 : (decide (c = '*') || decide (c = '%') || decide (c = '!') || decide (c = '=')) = true
+  · rw [if_pos h12] at h
+    close_leaf
+  rw [if_neg h12] at h
+  by_cases h13 : c = '&'
+  · rw [if_pos h13] at h
+    close_leaf
+  rw [if_neg h13] at h
+  by_cases h14 : c = '.'
+  · rw [if_pos h14] at h
+    close_leaf
+  rw [if_neg h14] at h
+  by_cases h15 : c = '|'
+  · rw [if_pos h15] at h
+    close_leaf
+  rw [if_neg h15] at h
+  -- a word or a single separator
+  by_cases hw : (takeWord op (c :: r)).1.isEmpty = true
+  · rw [if_pos hw] at h
+    close_leaf
+  · rw [if_neg hw] at h
+    have := takeWord_fst_nonempty op c r (by simpa using hw)
+    simp only [Except.ok.injEq, Prod.mk.injEq] at h
+    obtain ⟨_, _, _, rfl⟩ := h
+    exact this
 
 end TfelVerif.C31
